@@ -150,6 +150,23 @@ theorem reentrant_factory_transparent (k : Nat) (a : Fac) (cfg w n : Nat) :
     facDen (.reenter k a) cfg = facDen a (reReq cfg) := by
   refine ⟨by simp [facRun, newService, List.append_assoc], by simp [facDen]⟩
 
+/-- `call` is eager: the events of the first stage's own `call` (and of every closure / shim on the way
+to it) are emitted by `call(req)` itself, before the returned future is polled — they are a prefix of
+the reference log, the rest is what the polls of the future add -/
+theorem call_invokes_first_stage_now (s : Svc) (req w : Nat) :
+    refLog s req w = (call s req).2 ++ futLog (call s req).1 w :=
+  (call_spec s req w).2.2.2.symm
+
+/-- two call futures of the same service alive at once (`call r1`, then `call r2`), the second one
+driven first: each resolves to its own reference composition and adds exactly its own remaining log,
+whatever the order of the first polls; a future that is dropped unpolled has still made its first
+stage's call (`(call s r1).2` is emitted by `call`) -/
+theorem two_calls_independent (s : Svc) (r1 r2 w n : Nat) (h1 : pendOf s r1 < n) (h2 : pendOf s r2 < n) :
+    drive n (call s r2).1 w = (some (eval s r2), futLog (call s r2).1 w, w + pendOf s r2) ∧
+    drive n (call s r1).1 (w + pendOf s r2 + 1) =
+      (some (eval s r1), futLog (call s r1).1 (w + pendOf s r2 + 1), w + pendOf s r2 + 1 + pendOf s r1) :=
+  ⟨call_drive s r2 w n h2, call_drive s r1 _ n h1⟩
+
 /-! ## Non-vacuity: the hypotheses are met by non-trivial trees and scripts -/
 
 /-- `(a.map(21)).and_then(b.map_err(22))`, `a` pending twice, boxed on top -/
@@ -189,5 +206,8 @@ example : reReq 3 = 2 ∧ reEvts 45 3 = [.reent 45 3, .reent 45 2] := by decide
 example : eval exRe 3 = eval (.andThen (.map (.leaf 0 1 true 0 true) 21) (.fnSvc 11 true)) 2 := by decide
 example : (run 10 exRe 3 0).1 = some (eval exRe 3) := (drive_eq_eval exRe 3 0 10 (by decide)).1
 example : facDen (.reenter 46 (.leaf 60 1 true true (.fnSvc 11 true))) 5 = (1, .ok (.fnSvc 11 true)) := by decide
+
+example : (call exSvc 3).2 = [.called 0 3] ∧ (refLog exSvc 3 0).take 1 = [.called 0 3] := by decide
+example : pendOf exSvc 3 < 10 ∧ pendOf exSvc 4 < 10 := by decide
 
 end ActixNet.C11
